@@ -36,6 +36,10 @@ func runC11(c *core.Ctx) {
 	c.MinInstances("C11-REPR", 60)
 	c.MinInstances("C11-NOPANIC", 40)
 	c.MinInstances("C11-NORMALIZE", 14)
+	// bit-for-bit re-encoding of a decoded PDU is the composition of the mirror / layout-kind / primitive facts of C01
+	// (which itself imports C20, C16 and the ownership of encoder results): imported so that this check stands alone
+	c.MinInstances("C11-MIRROR", 1000)
+	importRules(c, "C01", "C11-MIRROR", nil)
 	c.Trust("C01 mirror rule (slot widths equal on both sides)", "C20 primitive contracts")
 	c.NotDecided("byte equality on concrete accepted inputs (not executed)")
 	var roots []*ssa.Function
